@@ -14,6 +14,14 @@ CLAIMS = {
              "locked set. Not decided: that each constraint's arithmetic is right (feasible(P,S) itself), completeness of goal assembly.",
         note="Assumes user relations/initial solutions consistent (documented precondition); CHA call graph; module-level allow tables with reasons.",
         ref="DESIGN.md §5 C01"),
+    "C02": dict(
+        technique="job-place effect analysis (removal/arrival pairing over merged closures, guard neighbourhood, reasoned table) + final-report def-use",
+        text="Conservation shape: every function that removes jobs from a job place (required/ignored/unassigned/a tour/the route list) adds to another place "
+             "in the same function, a direct callee, or hands them to callers that do; unpaired functions need a reasoned table row; the final report chains "
+             "unassigned and required and reports every route; the pragmatic writer writes every route and the unassigned list. Not decided: exact-once "
+             "semantics through value-level bookkeeping (predicates), vehicle/shift existence, identity of breaks/reloads.",
+        note="std collection method names classify removal/arrival; table rows are function level with reasons.",
+        ref="DESIGN.md §5 C02"),
     "C04": dict(
         technique="type-level aliasing argument (signatures + no interior mutability + forbid(unsafe)) and MIR typestate / guard analysis",
         text="Static analysis of all MIR bodies: `parent unchanged` is decided for every operator and history as a type-level argument "
